@@ -60,6 +60,31 @@ func VerifC03Release() {
 		}
 		return
 	}
+	// the same collision (F3) arises one block later: a due record that is held is re-queued
+	// under (height+1, nonce) and takes the pending-index key of a record with the same nonce
+	// that completes at height+1
+	requeueCollide := false
+	for i := 0; i < len(recs); i++ {
+		for j := 0; j < len(recs); j++ {
+			a, b := recs[i], recs[j]
+			if i != j && a.Record.LzTxNonce == b.Record.LzTxNonce && a.Record.CompleteBlockNumber == uint64(h) && a.Hold > 0 && b.Record.CompleteBlockNumber == uint64(h)+1 {
+				requeueCollide = true
+			}
+		}
+	}
+	if requeueCollide {
+		if verifrt.Param("f3_witness", 1) == 1 {
+			e.Deleg.EndBlock(e.Ctx, abci.RequestEndBlock{})
+			ok := true
+			for _, r := range recs {
+				if cur, live := e.RecordLive(r.Key); live {
+					ok = ok && e.PendingIndexHas(cur.CompleteBlockNumber, cur.LzTxNonce, r.Key)
+				}
+			}
+			verifrt.Assert(ok, "F3: a held record re-queued to the next block keeps every other record reachable through the pending index")
+		}
+		return
+	}
 	pre := l.Read()
 	e.Deleg.EndBlock(e.Ctx, abci.RequestEndBlock{})
 	post := l.Read()
